@@ -21,6 +21,8 @@ class LoopSpec(object):
         self.unroll = None
         self.body_ensures = []   # per-iteration postconditions (may use head(x) and _yielded)
         self.body_raises = []    # (class expr, when expr over the iteration-head state)
+        self.step_ensures = []   # raw_iter loops: per-operation postconditions (head(x) = state before the op)
+        self.step_raises = []    # raw_iter loops: (class expr, when expr) for exceptions raised by one operation
         self.split_op = False    # raw_iter loops: case split on the opcode byte of the iteration
 
 
